@@ -113,11 +113,31 @@ def seq_script(cap, ops):
     return "\n".join(L)
 
 
-def seq_model_line(cap, ops):
+def seq_model_line(cap, ops, fused):
     toks = []
     for kind, v, _ in ops:
         toks.append("s%d" % v if kind == "s" else kind)
-    return "seq\t%d\t%s" % (cap, ",".join(toks))
+    return "seq\t%d\t%d\t%s" % (fused, cap, ",".join(toks))
+
+
+def foriter_variant():
+    """Which ForIter does the tree have?  0: iter.Next(ctx) with the value dropped, then iter.Entry() (two steps sharing
+    Chan.lastReceived); 1: channels take value and entry in one step (Chan.NextEntry, the proposed repair); None: neither."""
+    import re
+    try:
+        src = open(os.path.join(C.REPO, "vm", "vm.go")).read()
+        ch = open(os.path.join(C.REPO, "object", "chan.go")).read()
+    except OSError:
+        return None, "vm/vm.go or object/chan.go not readable"
+    m = re.search(r"case op\.ForIter:(.*?)\n\t\tcase op\.", src, re.S)
+    if not m:
+        return None, "case op.ForIter not found in vm/vm.go"
+    blk = m.group(1)
+    if "NextEntry(" in blk and "func (c *Chan) NextEntry(" in ch:
+        return 1, "ForIter uses Chan.NextEntry for channels"
+    if re.search(r"_,\s*ok\s*:?=\s*iter\.Next\(ctx\)", blk) and "iter.Entry()" in blk and "c.lastReceived = value" in ch:
+        return 0, "ForIter drops the value of iter.Next and calls iter.Entry; Chan.Next stores lastReceived"
+    return None, "ForIter / Chan.Next have a shape the model does not know"
 
 
 def seq_expected(model_out, ops):
@@ -254,6 +274,8 @@ def topo_logs(cfg, resp):
 
 def topo_oracle(cfg, resp):
     """The property itself on the implementation's observations.  Returns (why or None, facts)."""
+    if resp.get("overflow"):
+        return "runaway evaluation: receivers recorded more values than 4x the number sent (a receive loop never saw nil / the end)", {}
     if resp.get("error"):
         return "evaluation failed: %s" % resp["error"], {}
     if resp.get("result") != "s:done":
@@ -444,17 +466,38 @@ def spawn_observed(resp):
 # ------------------------------------------------------------------ running the two sides
 
 def run_impl(exe, reqs, timeout):
-    """reqs: list of dicts (id, src, procs, yield, timeout_ms).  One child process per call."""
-    data = ("\n".join(json.dumps(r) for r in reqs) + "\n").encode()
-    rc, out, err = C.run([exe], input=data, timeout=timeout)
-    res = {}
-    for line in out.splitlines():
-        try:
-            j = json.loads(line)
-        except ValueError:
-            continue
-        res[j["id"]] = j
-    return rc, res, err
+    """reqs: list of dicts (id, src, procs, yield, timeout_ms).  Child processes; a request that kills or hangs
+    its process is reported as such and the remaining requests continue in a fresh process."""
+    res, errs, rc_final = {}, "", 0
+    pending = list(reqs)
+    guard = 0
+    while pending and guard < 50:
+        guard += 1
+        data = ("\n".join(json.dumps(r) for r in pending) + "\n").encode()
+        budget = min(timeout, 30 + sum(r.get("timeout_ms", 5000) for r in pending) / 1000.0 * 1.2)
+        rc, out, err = C.run([exe], input=data, timeout=budget)
+        got = 0
+        for line in out.splitlines():
+            try:
+                j = json.loads(line)
+            except ValueError:
+                continue
+            res[j["id"]] = j
+            got += 1
+        if rc == 0:
+            break
+        rc_final = rc
+        errs += err[-800:]
+        rest = [r for r in pending if r["id"] not in res]
+        if not rest:
+            break
+        if rc != 3:
+            # the first unanswered request crashed (or stalled) the process
+            bad = rest.pop(0)
+            res[bad["id"]] = {"id": bad["id"], "result": None, "logs": {}, "ms": 0,
+                              "error": "PROCESS DIED (exit %d): %s" % (rc, err[-400:].replace("\n", " | "))}
+        pending = rest
+    return rc_final, res, errs
 
 
 def run_impl_sharded(exe, reqs, nshards, timeout):
@@ -503,6 +546,10 @@ def run(res):
                       nofail=True, tag="build")
         return
     proved = C.prove(res, PROP)
+    if proved and tier != "quick":
+        if not C.coqchk(res, PROP):
+            proved = False
+            res.broken = {"log_tail": "coqchk rejected the .vo closure of props/C10: " + res.coverage["coqchk"]["tail"], "errors": []}
     model, err = C.build_extracted("chan", "ExtractChan.v", "chan_driver.ml")
     if not model:
         res.violation({"property": PROP, "kind": "model-build-failed", "stage": "extraction", "log": err[-3000:],
@@ -522,6 +569,23 @@ def _body(res, tier, obs, model, proved):
     nontrivial = set()
     evals = 0
     stats = {}
+    st = {"evals": 0}
+    fused, vwhy = foriter_variant()
+    res.coverage["foriter_variant"] = {"fused": fused, "why": vwhy}
+    if fused is None:
+        res.violation({"property": PROP, "kind": "correspondence-broken", "stage": "source anchor of ForIter",
+                       "first_difference": vwhy, "search": "not started: the model variant to compare with is unknown"},
+                      nofail=True, tag="corr")
+        return
+    if fused:
+        # the repaired ForIter: the full statement is proved (C10_full_after_repair); nothing is a known finding
+        known, known_ids = [], []
+
+    def fresh_violation():
+        return any(not (v.get("klass") == KNOWN_CLASS and "range-multi-receiver" in known_ids) for v in oracle_viol)
+
+    def finish():
+        _finish(res, st["evals"], nontrivial, samples, stats, corr, oracle_viol, known, known_ids, proved)
 
     # ---------------- A: sequential histories
     nseq = 4000 if quick else 40000
@@ -537,7 +601,7 @@ def _body(res, tier, obs, model, proved):
         seq_cases.append(gen_seq_case(rng, False))
     for _ in range(nmal):
         seq_cases.append(gen_seq_case(rng, True))
-    mlines = [seq_model_line(c, o) for c, o in seq_cases]
+    mlines = [seq_model_line(c, o, fused) for c, o in seq_cases]
     mouts = run_model(model, mlines)
     # blocking cases cost a timeout each: keep a bounded number of them
     max_block = 64 if quick else 600
@@ -559,7 +623,7 @@ def _body(res, tier, obs, model, proved):
     for idx in keep:
         cap, ops = seq_cases[idx]
         r = ares.get("A%d" % idx)
-        evals += 1
+        st["evals"] += 1
         case = {"stage": "A-sequential", "cap": cap, "ops": [list(o) for o in ops]}
         if r is None:
             corr.append(dict(case, impl="no answer from c10obs", model=mouts[idx]))
@@ -595,15 +659,28 @@ def _body(res, tier, obs, model, proved):
     for _ in range(nbig):
         topos.append(gen_topo(rng, tier, big=True))
     reqs = [{"id": "B%d" % k, "src": topo_script(cfg), "procs": cfg["procs"], "yield": cfg["yield_seed"],
-             "timeout_ms": 60000} for k, cfg in enumerate(topos)]
+             "timeout_ms": 8000 + 3 * sum(cfg["counts"]), "max_log": 4 * sum(cfg["counts"]) + 100}
+            for k, cfg in enumerate(topos)]
+    if fresh_violation():
+        return finish()
     C.log("C10/B: %d topologies" % len(reqs))
-    bres, fails = run_impl_sharded(obs, reqs, 8, 900)
+    # a first small batch decides quickly when the tree is badly broken (every run would wait for its deadline)
+    head = 24
+    bres, fails = run_impl_sharded(obs, reqs[:head], 8, 300)
+    first_bad = sum(1 for k, cfg in enumerate(topos[:head])
+                    if bres.get("B%d" % k) is None or topo_oracle(cfg, bres["B%d" % k])[0])
+    if first_bad == 0:
+        more, fails2 = run_impl_sharded(obs, reqs[head:], 8, 900)
+        bres.update(more)
+        fails += fails2
+    else:
+        topos = topos[:head]
     if fails:
         res.notes.append("c10obs shard failures in B: %r" % (fails[:2],))
     alines, aidx = [], []
     for k, cfg in enumerate(topos):
         r = bres.get("B%d" % k)
-        evals += 1
+        st["evals"] += 1
         case = {"stage": "B-topology", "config": cfg}
         if r is None:
             corr.append(dict(case, impl="no answer from c10obs"))
@@ -630,6 +707,8 @@ def _body(res, tier, obs, model, proved):
     stats["B_topologies"] = {"cases": len(topos), "oracle_ok": len(aidx), "accepted_by_model": acc_ok,
                              "messages": sum(sum(c["counts"]) for c in topos)}
 
+    if fresh_violation():
+        return finish()
     C.log("C10/C: tiny topologies against all model schedules")
     # ---------------- C: tiny topologies, all model schedules enumerated
     tiny = []
@@ -647,7 +726,7 @@ def _body(res, tier, obs, model, proved):
     for cfg in tiny:
         progs = ";".join(",".join(str(100 * i + k) for k in range(n)) for i, n in enumerate(cfg["counts"]))
         kinds = "".join("i" if k == "range_kv" else "r" for k in cfg["rkinds"])
-        rlines.append("reach\t%d\t%s\t%s" % (cfg["cap"], progs, kinds))
+        rlines.append("reach\t%d\t%d\t%s\t%s" % (fused, cfg["cap"], progs, kinds))
     routs = run_model(model, rlines)
     reqs = []
     for k, cfg in enumerate(tiny):
@@ -670,7 +749,7 @@ def _body(res, tier, obs, model, proved):
         seen = set()
         for rep in range(reps):
             r = cres.get("C%d.%d" % (k, rep))
-            evals += 1
+            st["evals"] += 1
             if r is None or r.get("error"):
                 corr.append({"stage": "C-reach", "config": cfg, "impl": r and r.get("error"), "model": "run failed"})
                 continue
@@ -692,6 +771,8 @@ def _body(res, tier, obs, model, proved):
     stats["C_reach"] = {"configs": len(tiny), "runs": len(reqs), "model_states": reach_states,
                         "model_outcomes": model_outcomes, "observed_distinct_outcomes": seen_outcomes}
 
+    if fresh_violation():
+        return finish()
     C.log("C10/D: spawn scenarios")
     # ---------------- D: spawn scenarios
     nsp = 900 if quick else 10000
@@ -703,7 +784,7 @@ def _body(res, tier, obs, model, proved):
     dres, fails = run_impl_sharded(obs, reqs, C.NCPU, 600)
     dagree = 0
     for k, sc in enumerate(scs):
-        evals += 1
+        st["evals"] += 1
         r = dres.get("D%d" % k)
         case = {"stage": "D-spawn", "scenario": sc}
         if r is None:
@@ -724,6 +805,8 @@ def _body(res, tier, obs, model, proved):
             samples.append(dict(case, impl=got, model=exp))
     stats["D_spawn"] = {"cases": len(scs), "agree": dagree}
 
+    if fresh_violation():
+        return finish()
     C.log("C10/E: witness")
     # ---------------- E: the refutation witness on the real code
     nwit = 4 if quick else 20
@@ -739,7 +822,7 @@ def _body(res, tier, obs, model, proved):
     reproduced = 0
     first_wit = None
     for k, c in enumerate(wit_cfgs):
-        evals += 1
+        st["evals"] += 1
         r = eres.get("E%d" % k)
         if r is None:
             corr.append({"stage": "E-witness", "config": c, "impl": "no answer"})
@@ -767,6 +850,8 @@ def _body(res, tier, obs, model, proved):
                                 "src": topo_script(wit_cfgs[k]), "klass": None})
     stats["E_witness"] = {"runs": len(wit_cfgs), "reproduced": reproduced, "weak_accept_ok": weak_ok, "first": first_wit}
 
+    if fresh_violation():
+        return finish()
     C.log("C10/F: race detector")
     # ---------------- F: the same under the race detector (each case in its own process)
     race_exe, rerr = C.go_build("c10obs", race=True)
@@ -801,7 +886,7 @@ def _body(res, tier, obs, model, proved):
     race_clean = 0
     race_known = 0
     for (kind, cfg, src), (rc, out, errtxt) in zip(rcases, routs2):
-        evals += 1
+        st["evals"] += 1
         nr = errtxt.count("WARNING: DATA RACE")
         if nr == 0 and rc == 0:
             race_clean += 1
@@ -817,7 +902,12 @@ def _body(res, tier, obs, model, proved):
     stats["F_race"] = {"cases": len(rcases), "clean": race_clean, "known_class_reports": race_known}
 
     C.log("C10: deciding")
+    return finish()
+
+
+def _finish(res, evals, nontrivial, samples, stats, corr, oracle_viol, known, known_ids, proved):
     # ---------------- evidence
+    cov = res.coverage
     cov["evaluations"] = evals
     cov["distinct_nontrivial"] = len(nontrivial)
     cov["rule"] = ("seeded (splitmix64) generators. A: single-goroutine histories of <= 12 operations (send / receive / one "
@@ -836,8 +926,10 @@ def _body(res, tier, obs, model, proved):
                    "reassignment, overwrite, error or panic, E runs that show duplicates/losses.")
     cov["samples"] = samples
     cov["correspondence"] = dict(stats, differences=len(corr))
-    cov["traces_validated_against_impl"] = stats["A_sequential"]["agree"] + stats["B_topologies"]["accepted_by_model"] + \
-        stats["D_spawn"]["agree"]
+    cov["traces_validated_against_impl"] = stats.get("A_sequential", {}).get("agree", 0) + \
+        stats.get("B_topologies", {}).get("accepted_by_model", 0) + stats.get("D_spawn", {}).get("agree", 0)
+    if "F_race" not in stats:
+        res.notes.append("stopped at the first stage with a failing input; later stages not run: have %s" % sorted(stats))
     res.assumptions += [
         "Go's channel implementation meets the modelled semantics (FIFO queue of bounded capacity, closed flag, send on closed "
         "panics, receive on closed+empty yields the zero value); an unbuffered channel is modelled as capacity 1 (superset of schedules)",
@@ -896,6 +988,8 @@ def seq_oracle(cap, ops, got):
             if g == "sent":
                 if closed:
                     return "send succeeded on a closed channel"
+                if len(q) >= cap:
+                    return "send completed although the queue was full (capacity %d) and nobody was receiving" % cap
                 q.append(v)
             elif g != "sendclosed" or not closed:
                 return "send gave %s" % g
